@@ -106,9 +106,36 @@ class Norm:
                     return False
         return True
 
-    @staticmethod
-    def _tested_identity(asg):
-        """an `is_zero(*self)` / `is_zero(self.0)` test came out true on this path: the identity is its own normal form"""
+    def _tested_identity(self, asg):
+        """an `is_zero(*self)` / `is_zero(self.0)` test came out true on this path (the identity is its own normal form), or
+        the z coordinate compared equal to one() (the point is already in normal form)"""
+        def is_self(y):
+            y = strip(y)
+            while y[0] == "field" and y[2] == 0:
+                y = strip(y[1])
+            return y == ("init", ("deref", 1))
+
+        def is_z_of_self(t):
+            t = strip(t)
+            if t[0] == "field" and t[2] == 2 and is_self(t[1]):
+                return True
+            if t[0] == "call" and len(t[2]) == 1 and is_self(t[2][0]):
+                if self.accessors.get(t[1].d) == 2:
+                    return True
+                # wrapper accessor `fn z(&self) -> Fq { Fq(*self.0.z()) }`
+                cb = self.F.bodies.get(t[1].d)
+                if cb is not None and len(cb.rec.get("inputs") or []) == 1:
+                    rv = strip(self.repo.tb(cb).return_value())
+                    while rv[0] == "agg" and len(rv[3]) == 1:
+                        rv = strip(rv[3][0])
+                    return is_z_of_self(rv) if rv[0] in ("field", "call") else False
+            return False
+        for a, v in asg.items():
+            if a[0] == "ord" and v == "E":
+                for x, y in ((a[1], a[2]), (a[2], a[1])):
+                    y = strip(y)
+                    if y[0] == "call" and y[1].name == "one" and not y[2] and is_z_of_self(x):
+                        return True
         for a, v in asg.items():
             if v == 1 and a[0] == "bool" and a[1][0] == "call" and a[1][1].name == "is_zero" and len(a[1][2]) == 1:
                 y = strip(a[1][2][0])
